@@ -192,6 +192,47 @@ META4 = {
 }
 
 
+META5 = {
+    "C01": dict(file="bioscrape/types.pxd (MassActionPropensity.num_species declared unsigned: `volume ** (num_species - 1)` wraps at order 0)", needs="the general mass-action class initialised directly with no reactants, a volume mode, V != 1", caught_by=["C01"],
+                first_run="missed: the class was only reached through Model, which uses it from order 3 on", strengthened="the class initialised directly for every order 0..3 (the engine's unsigned wrap-around is now in its self-test)"),
+    "C02": dict(file="bioscrape/types.pyx (Propensity.get_stochastic_volume_propensity falls back on the stochastic, not the volume, form)", needs="a general rate that mentions volume, stochastic + volume, V != 1", caught_by=["C02"],
+                first_run="counterexample found; the obligation had no replay (reported as an unconfirmed violation)", strengthened="replay of the general rate / rule modes on the real build"),
+    "C03": dict(file="bioscrape/simulator.pyx (ModelCSimInterface.compute_propensities clamps negative rates to 0)", needs="a general rate that is negative at the state (net flux of a reversible step)", caught_by=["C03"],
+                first_run="missed: rates through the real interface were mass action only", strengthened="real-model derivative job with the net rate kf*A - kr*B of either sign"),
+    "C04": dict(file="bioscrape/types.pyx (MaxTerm / MinTerm evaluate their first two arguments only)", needs="min / max over three or more arguments in a general rate", caught_by=["C04"],
+                first_run="missed by C04 (C02 reported it, with spurious side results: fmax / fmin were uninterpreted in the engine)", strengthened="C04 model with n-ary min / max / abs; engine: exact fmax, fmin, floor, ceil, pow"),
+    "C05": dict(file="bioscrape/random.pyx (sample_discrete rewritten without the running subtraction)", needs="three or more reactions with non-zero propensity", caught_by=["C05"],
+                first_run="the check did not return: the encoder-validation scenario never finished in the interpreter on the changed tree", strengthened="encoder validation bounded in time (reported as inconclusive, the check goes on); the solver's counterexample replays"),
+    "C06": dict(file="bioscrape/types.pyx (GeneralAssignmentRule.rule_volume_operation always writes the state)", needs="a volume simulator + an assignment rule whose target is a parameter", caught_by=["C06"],
+                first_run="missed: no obligation on rules in C06", strengthened="rules that assign to parameters only leave all species counts unchanged (plain and volume rule pass)"),
+    "C07": dict(file="bioscrape/simulator.pyx (ModelCSimInterface.apply_repeated_volume_rules passes time and volume swapped)", needs="a volume mode + a rule that mentions t or volume or fires at the start", caught_by=["C07"],
+                first_run="missed by C07 (C09 reported it)", strengthened="the real interface's rule passes over rules with t / volume are part of C07 (first row = initial condition with rules applied); first-row replay over all modes"),
+    "C08": dict(file="bioscrape/simulator.pyx (DelayVolumeSSASimulator: np.ascontiguousarray(initial state) instead of a copy)", needs="delay + volume, then anything else on the same model", caught_by=["C08"],
+                first_run="engine gap: ascontiguousarray converted the symbolic array to floats: exit 2", strengthened="npshim: ascontiguousarray / asanyarray / require return the argument itself when numpy would; self-test"),
+    "C09": dict(file="bioscrape/types.pyx (Rule fires when |scheduled time - t| < dt/2)", needs="a scheduled rule + reactions firing within half a step of its time", caught_by=["C09"], first_run="caught"),
+    "C10": dict(file="bioscrape/simulator.pyx (VolumeSSASimulator: `c_stoich += delayed` on the model's own array)", needs="a delay model run without delay support in the volume simulator, then a delay run", caught_by=["C10"],
+                first_run="missed by C10 (the same place as r3/C06; C06, C08, C11 report it)", strengthened="C10 covers the non-delay volume loop on delay models: both parts at the firing time, matrices untouched"),
+    "C11": dict(file="bioscrape/types.pyx (PowerTerm.volume_evaluate evaluates its base without the volume)", needs="a general rate with volume inside a quotient or power, V != 1", caught_by=["C11"],
+                first_run="missed by C11 (C02's node obligations report it)", strengthened="general rates that carry their own volume scaling + the expression nodes' volume-aware evaluation in C11"),
+    "C12": dict(file="bioscrape/sbmlutil.py (import_sbml_reactions keeps the previous reaction's delayed reactants / products when the annotation entry is empty)", needs="two delayed reactions in a row, the second with an empty delayed list", caught_by=["C12"],
+                first_run="missed: every program had one reaction", strengthened="programs with several delayed / undelayed reactions in every order"),
+    "C13": dict(file="bioscrape/sbmlutil.py (import_sbml_species: the concentration overrides a non-zero amount when hasOnlySubstanceUnits is false)", needs="a species carrying both attributes", caught_by=["C13"],
+                first_run="missed: libsbml's setters drop one of the two attributes, so no generated document had both", strengthened="the second attribute is written into the document text; hasOnlySubstanceUnits both ways"),
+    "C14": dict(file="bioscrape/types.pyx (generate_sbml_model exports delayed reactions in stochastic form)", needs="deterministic export of a delayed mass-action reaction with a repeated reactant", caught_by=["C14"],
+                first_run="missed: no delayed reaction among the programs", strengthened="delayed mass-action programs (three families, repeated reactants); replay compares relatively at several states"),
+    "C15": dict(file="bioscrape/inference_setup.py (extract_data selects the measured columns with columns.isin: frame order, not measurement order)", needs="two or more measurements listed in another order than the frame's columns", caught_by=["C15"],
+                first_run="harness gap: the data-frame model had no .loc / .columns: exit 2", strengthened="the frame model covers columns, loc / iloc, to_numpy, __array__, drop, keys (column order kept)"),
+    "C16": dict(file="bioscrape/pid_interfaces.py (gaussian_prior rejects densities above 1)", needs="a gaussian prior with sigma < 0.399 near its mean", caught_by=["C16"], first_run="caught (two wrapper obligations had no replay; added)"),
+    "C17": dict(file="lineage/lineage.pyx (LineageModel.__setstate__: death_events_list = state[6])", needs="a lineage model with death or volume events, copied, then initialised", caught_by=["C17"],
+                first_run="counterexample found, not replayed (the lineage replay compared definitions only): exit 2", strengthened="lineage behaviour replay: every kind of lineage rule / event, copied before / after initialisation, same-seed single-cell runs and event counts"),
+    "C18": dict(file="bioscrape/analysis.py (SensitivityAnalysis builds a SafeModelCSimInterface)", needs="a general rate that is negative at the state", caught_by=["C18"],
+                first_run="harness error: the stub model does not fit the safe interface: exit 2", strengthened="real-model job (no stub): net rate kf*A - kr*B of either sign, Jacobian and sensitivities analytic"),
+    "C19": dict(file="lineage/lineage.pyx (truncate_timepoints_less_than starts its scan at ceil((value - t0)/dt))", needs="a grid whose step is not a binary fraction (or a non-uniform grid) and a division at an affected index", caught_by=["C19"],
+                first_run="engine gap: range() with a symbolic first index: exit 2", strengthened="engine: range(start, stop) forks on a symbolic start below a concrete bound"),
+    "C20": dict(file="bioscrape/simulator.pyx (ArrayDelayQueue.advance_time clears column (start_index - 1) % num_cols: unsigned underflow)", needs="a queue length that is not a power of two, advanced past its wrap", caught_by=["C20"], first_run="caught"),
+}
+
+
 def main():
     results = {}
     rp = "/verif/seeded/results.json"
@@ -204,6 +245,8 @@ def main():
         rounds.append((META3, "/tmp/seed3_out", os.path.join(DST, "r3"), ("patch.diff", "demo.py", "notes.md")))
     if os.path.isdir("/tmp/seed4_out") or os.path.isdir(os.path.join(DST, "r4")):
         rounds.append((META4, "/tmp/seed4_out", os.path.join(DST, "r4"), ("patch.diff", "demo.py", "notes.md")))
+    if os.path.isdir("/tmp/seed5_out") or os.path.isdir(os.path.join(DST, "r5")):
+        rounds.append((META5, "/tmp/seed5_out", os.path.join(DST, "r5"), ("patch.diff", "demo.py", "notes.md")))
     for table, src_root, dst_root, files in rounds:
       for pid, m in sorted(table.items()):
         src = os.path.join(src_root, pid)
@@ -212,7 +255,7 @@ def main():
         for fn in files:
             if os.path.exists(os.path.join(src, fn)):
                 shutil.copy(os.path.join(src, fn), os.path.join(dst, fn))
-        key = pid if table is META else ("r2/" if table is META2 else "r3/" if table is META3 else "r4/") + pid
+        key = pid if table is META else ("r2/" if table is META2 else "r3/" if table is META3 else "r4/" if table is META4 else "r5/") + pid
         meta = dict(property=pid, changed=m["file"], needs_to_manifest=m["needs"], reported_by_checks=m["caught_by"],
                     first_run=m["first_run"], strengthened=m.get("strengthened", ""),
                     confirmed=["tools/try_seed.sh: (1) `git diff` of the sub-agent's worktree equals patch.diff; (2) the pinned suite run in that worktree: 54 passed; "
